@@ -238,6 +238,9 @@ def mk_prior(cuqi, spec):
     if p["kind"] == "gmrf":
         mean = float(p["mean"][0]) if p.get("scalar_mean") else np.array(p["mean"], dtype=float)
         kw = {"geometry": n} if p.get("scalar_mean") else {}
+        if p.get("two_d"):
+            side = int(round(n ** 0.5))
+            kw = {"geometry": cuqi.geometry.Image2D((side, side))}
         return cuqi.distribution.GMRF(mean, float(p["prec"]), bc_type=p["bc"], order=p["order"], name="x", **kw)
     if p["kind"] == "joint":
         return cuqi.distribution.JointGaussianSqrtPrec([np.array(b["mean"], dtype=float) for b in p["blocks"]],
@@ -539,9 +542,9 @@ def gen_prior(rng, n, cell):
         mean = [rng.randint(-4, 4) / 2] if sm else rand_dyadic_vec(rng, n)
         return {"kind": "gaussian", "g": gen_gspec(rng, n, f, s), "mean": mean, "scalar_mean": bool(sm)}
     if kind == "gmrf":
-        _, bc, order, _ = cell
+        _, bc, order, dim2 = cell
         return {"kind": "gmrf", "bc": bc, "order": order, "prec": rng.choice([1.0, 4.0, 0.25, 3.0, 0.5]),
-                "mean": rand_dyadic_vec(rng, n), "scalar_mean": False}
+                "mean": rand_dyadic_vec(rng, n), "scalar_mean": False, "two_d": bool(dim2)}
     nb = cell[1]
     blocks = []
     for b in range(nb):
@@ -559,6 +562,8 @@ def gen_rto_spec(rng, idx, iface, target, mkind, noise_cells, prior_cell, shape_
     if prior_cell[0] == "gmrf" and prior_cell[2] == 2:
         n_min = 4
     n = rng.randint(n_min, 4)
+    if prior_cell[0] == "gmrf" and prior_cell[3] == "2d":
+        n = 4                                             # 2 x 2 image
     k = len(noise_cells)
     liks = []
     for (f, s) in noise_cells:
@@ -589,7 +594,7 @@ def cell_name(spec):
     if p["kind"] == "gaussian":
         pc = "gauss-%s-%s-%s" % (p["g"]["form"], p["g"]["shape"], "smean" if p.get("scalar_mean") else "vmean")
     elif p["kind"] == "gmrf":
-        pc = "gmrf-%s-o%d" % (p["bc"], p["order"])
+        pc = "gmrf%s-%s-o%d" % ("2d" if p.get("two_d") else "", p["bc"], p["order"])
     else:
         pc = "joint%d" % len(p["blocks"])
     nz = "+".join("%s-%s" % (l["noise"]["form"], l["noise"]["shape"]) for l in spec["liks"])
@@ -840,8 +845,23 @@ def build_rto(cuqi, rng, cellspec):
         spec["estar2"] = rand_dyadic_vec(rng, p, 2, -2, 2)
         if spec["estar2"] == spec["estar"]:
             spec["estar2"][0] += 1.0
-        return spec, observe(cuqi, spec)
+        return spec, try_observe(cuqi, spec)
     raise RuntimeError("could not generate a well-conditioned configuration for cell %r" % (cellspec,))
+
+
+def try_observe(cuqi, spec):
+    """observations, or the exception the implementation (or the scripted-stream protocol) raised on this
+    valid configuration -- reported as a failing case, never as a crash of the whole run"""
+    try:
+        return observe(cuqi, spec)
+    except Exception as ex:
+        import traceback
+        return {"raised": "%s: %s" % (type(ex).__name__, ex), "trace": traceback.format_exc()[-1500:]}
+
+
+def raised_case(spec, obs):
+    return Case(expr="false", meta={"spec": spec, "stage": "raised", "raised": obs["raised"]}, cell=cell_name(spec),
+                impl_fail="valid configuration, but no draw: " + obs["raised"], signature=signature_of(spec, "raises"))
 
 
 def refusal_cases(cuqi, rng):
@@ -903,6 +923,9 @@ def run(ctx):
     ndraws = 0
     for cellspec in lattice_rto(ctx):
         spec, obs = build_rto(cuqi, rng, cellspec)
+        if "raised" in obs:
+            cases.append(raised_case(spec, obs))
+            continue
         fail = oracle_check(spec, obs)
         cases += rto_cases(spec, obs, fail)
         ndraws += len(obs["draws"])
@@ -915,7 +938,10 @@ def run(ctx):
                                    else "defect #17 present (location != 0)"))
     for cell in lattice_ugla(ctx):
         spec = gen_ugla_spec(rng, cell)
-        obs = observe(cuqi, spec)
+        obs = try_observe(cuqi, spec)
+        if "raised" in obs:
+            cases.append(raised_case(spec, obs))
+            continue
         mark_dloc(spec, obs["D"])
         fail = oracle_check(spec, obs)
         cases += ugla_cases(spec, obs, fail, st[spec["iface"]][0])
@@ -938,7 +964,9 @@ def oracle(ctx, meta):
     spec = meta.get("spec")
     if not spec:
         return None
-    obs = observe(cuqi, spec)
+    obs = try_observe(cuqi, spec)
+    if "raised" in obs:
+        return "valid configuration, but no draw: " + obs["raised"]
     fail = oracle_check(spec, obs)
     return fail[1] if fail else None
 
@@ -969,13 +997,19 @@ def search(ctx):
     for rep in range(2):
         for cellspec in lattice_rto(ctx):
             spec, obs = build_rto(cuqi, rng, cellspec)
+            if "raised" in obs:
+                found.append(raised_case(spec, obs))
+                continue
             fail = oracle_check(spec, obs)
             if fail:
                 found.append(Case(expr="true", meta={"spec": spec, "stage": "search"}, cell=cell_name(spec), impl_fail=fail[1],
                                   signature=signature_of(spec, fail[0])))
         for cell in lattice_ugla(ctx):
             spec = gen_ugla_spec(rng, cell)
-            obs = observe(cuqi, spec)
+            obs = try_observe(cuqi, spec)
+            if "raised" in obs:
+                found.append(raised_case(spec, obs))
+                continue
             mark_dloc(spec, obs["D"])
             fail = oracle_check(spec, obs)
             if fail:
